@@ -6,6 +6,7 @@ import Mathlib.Algebra.BigOperators.Ring.Finset
 import Mathlib.Algebra.BigOperators.Intervals
 import Mathlib.RingTheory.RootsOfUnity.PrimitiveRoots
 import Mathlib.Data.ZMod.Basic
+import Mathlib.Algebra.Ring.GeomSum
 /-
   Ark.Proofs.FftA — helper lemmas for property C07 (part A): the radix-2 FFT of
   `Ark.Model.Fft` computes polynomial evaluation on the domain.
@@ -1546,4 +1547,218 @@ theorem radix2Fft_long (d : Domain F) (c : List F)
   omega
 
 end R2
+
+section Inv
+variable {F : Type} [Field F]
+
+/-! ## 10. the inverse transform -/
+
+/-- orthogonality of the characters of the cyclic group generated by a primitive root:
+    `Σ_{j<n} (g^m · g⁻ⁱ)^j = n·[m = i]` for `m, i < n` -/
+theorem geom_orth (g gi : F) (n : Nat) (hg : IsPrimitiveRoot g n) (hgi : gi * g = 1) (m i : Nat)
+    (hm : m < n) (hi : i < n) :
+    ∑ j ∈ Finset.range n, (g ^ m * gi ^ i) ^ j = if m = i then (n : F) else 0 := by
+  have hgi' : ∀ e : Nat, gi ^ e * g ^ e = 1 := fun e => by rw [← mul_pow, hgi, one_pow]
+  by_cases hmi : m = i
+  · subst hmi
+    rw [if_pos rfl, mul_comm, hgi']
+    simp
+  · rw [if_neg hmi]
+    set ρ := g ^ m * gi ^ i with hρ
+    have hρn : ρ ^ n = 1 := by
+      have h1 : g ^ n = 1 := hg.pow_eq_one
+      have h2 : gi ^ n = 1 := by have := hgi' n; rwa [h1, mul_one] at this
+      rw [hρ, mul_pow, ← pow_mul, ← pow_mul, mul_comm m n, mul_comm i n, pow_mul, pow_mul, h1, h2]
+      simp
+    have hρ1 : ρ - 1 ≠ 0 := by
+      intro h
+      have h1 : ρ = 1 := sub_eq_zero.mp h
+      apply hmi
+      apply hg.pow_inj hm hi
+      calc g ^ m = g ^ m * (gi ^ i * g ^ i) := by rw [hgi', mul_one]
+        _ = ρ * g ^ i := by rw [hρ]; ring
+        _ = g ^ i := by rw [h1, one_mul]
+    have := geom_sum_mul ρ n
+    rw [hρn, sub_self] at this
+    exact (mul_eq_zero.mp this).resolve_right hρ1
+
+/-- the inverse DFT sum applied to the values of `Σ cc_m y^m` on the coset `h·⟨g⟩` -/
+theorem idft_sum (g gi h : F) (n : Nat) (hg : IsPrimitiveRoot g n) (hgi : gi * g = 1) (cc : Nat → F)
+    (i : Nat) (hi : i < n) :
+    ∑ j ∈ Finset.range n, (∑ m ∈ Finset.range n, cc m * (h * g ^ j) ^ m) * (gi ^ i) ^ j
+      = (n : F) * cc i * h ^ i := by
+  have : ∀ j ∈ Finset.range n, (∑ m ∈ Finset.range n, cc m * (h * g ^ j) ^ m) * (gi ^ i) ^ j
+      = ∑ m ∈ Finset.range n, cc m * h ^ m * (g ^ m * gi ^ i) ^ j := by
+    intro j _
+    rw [Finset.sum_mul]
+    apply Finset.sum_congr rfl
+    intro m _
+    ring
+  rw [Finset.sum_congr rfl this, Finset.sum_comm]
+  have : ∀ m ∈ Finset.range n, ∑ j ∈ Finset.range n, cc m * h ^ m * (g ^ m * gi ^ i) ^ j
+      = cc m * h ^ m * (if m = i then (n : F) else 0) := by
+    intro m hm
+    rw [← Finset.mul_sum, geom_orth g gi n hg hgi m i (Finset.mem_range.mp hm) hi]
+  rw [Finset.sum_congr rfl this, Finset.sum_eq_single i]
+  · rw [if_pos rfl]; ring
+  · intro m _ hmi; rw [if_neg hmi, mul_zero]
+  · intro h; exact absurd (Finset.mem_range.mpr hi) h
+
+theorem neg_one_of_primitive (g : F) (k : Nat) (hk : 0 < k) (hg : IsPrimitiveRoot g (2 ^ k)) :
+    g ^ 2 ^ (k - 1) = -1 := by
+  obtain ⟨k', rfl⟩ : ∃ k', k = k' + 1 := ⟨k - 1, by omega⟩
+  simp only [Nat.add_sub_cancel]
+  have hsq : g ^ 2 ^ k' * g ^ 2 ^ k' = 1 := by
+    rw [← pow_add, ← two_mul, ← pow_succ']; exact hg.pow_eq_one
+  rcases mul_self_eq_one_iff.mp hsq with h | h
+  · exact absurd h (hg.pow_ne_one_of_pos_of_lt (by positivity)
+      (Nat.pow_lt_pow_right (by omega) (by omega)))
+  · exact h
+
+theorem dpamc_map_range (n : Nat) (f : Nat → F) (g k : F) :
+    distributePowersAndMulByConst ((List.range n).map f) g k
+      = (List.range n).map (fun i => f i * k * g ^ i) := by
+  rw [distributePowersAndMulByConst_eq]
+  apply List.ext_getElem?
+  intro i
+  simp only [List.getElem?_map, List.getElem?_zipIdx, Nat.zero_add]
+  by_cases hi : i < n
+  · simp [List.getElem?_range hi]
+  · rw [List.getElem?_eq_none (by simp; omega)]; rfl
+
+end Inv
+
+section Inv2
+variable {F : Type} [Field F] [DecidableEq F]
+
+/-- item 9: the inverse transform returns the (zero-padded) coefficients -/
+theorem radix2Ifft_spec (d : Domain F) (c : List F) (k : Nat) (hk : k ≤ 64) (hd : d.size = 2 ^ k)
+    (hprim : IsPrimitiveRoot d.groupGen d.size) (hsz : d.sizeInv * (d.size : F) = 1)
+    (hgi : d.groupGenInv * d.groupGen = 1) (hoi : d.offsetInv * d.offset = 1)
+    (hc : c.length ≤ d.size) :
+    radix2Ifft d ((elements d).map (eval c)) = resize c d.size 0 := by
+  have hwi : k = 0 ∨ d.groupGenInv ^ 2 ^ (k - 1) = -1 := by
+    rcases Nat.eq_zero_or_pos k with h0 | hpos
+    · exact Or.inl h0
+    · right
+      have h1 := neg_one_of_primitive d.groupGen k hpos (hd ▸ hprim)
+      have h2 : d.groupGenInv ^ 2 ^ (k - 1) * d.groupGen ^ 2 ^ (k - 1) = 1 := by
+        rw [← mul_pow, hgi, one_pow]
+      rw [h1] at h2
+      have : d.groupGenInv ^ 2 ^ (k - 1) = -(d.groupGenInv ^ 2 ^ (k - 1) * -1) := by ring
+      rw [this, h2]
+  have hCl : (resize c d.size 0).length = d.size := length_resize _ _ _
+  have hC := list_eq_map_getD (resize c d.size 0) d.size hCl
+  generalize hcc : (fun i => (resize c d.size 0).getD i 0) = cc at hC
+  have hevc : ∀ y, eval c y = ∑ m ∈ Finset.range d.size, cc m * y ^ m := by
+    intro y
+    rw [← eval_resize c d.size y hc, hC, eval_eq_sum]
+  have hys : (elements d).map (eval c)
+      = (List.range d.size).map (fun j => eval c (d.offset * d.groupGen ^ j)) := by
+    rw [elements_eq, List.map_map]; rfl
+  have hyl : ((elements d).map (eval c)).length = 2 ^ k := by rw [hys]; simp [hd]
+  unfold radix2Ifft inOrderIfft ifftHelper
+  have hres : resize ((elements d).map (eval c)) d.size 0 = (elements d).map (eval c) := by
+    rw [resize_of_le _ _ _ (by rw [hyl, hd]), hyl, hd]; simp
+  rw [hres]
+  simp only [show (FFTOrder.II = FFTOrder.IO) = False by simp, if_false, if_true]
+  rw [hyl, log2_two_pow, oiHelper_derange d _ k hk hd hyl d.groupGenInv hwi, ← hd]
+  have hz : (List.range d.size).map (fun i => eval ((elements d).map (eval c)) (d.groupGenInv ^ i))
+      = (List.range d.size).map (fun i => (d.size : F) * cc i * d.offset ^ i) := by
+    apply List.map_congr_left
+    intro i hi
+    rw [hys, eval_eq_sum]
+    simp only [hevc]
+    exact idft_sum d.groupGen d.groupGenInv d.offset d.size hprim hgi cc i (List.mem_range.mp hi)
+  rw [hz, hC]
+  by_cases ho : d.offset = 1
+  · rw [if_pos ho, List.map_map]
+    apply List.map_congr_left
+    intro i _
+    simp only [Function.comp, ho, one_pow, mul_one]
+    rw [mul_comm (d.size : F), mul_assoc, mul_comm (d.size : F), hsz, mul_one]
+  · rw [if_neg ho, dpamc_map_range]
+    apply List.map_congr_left
+    intro i _
+    have : d.offsetInv ^ i * d.offset ^ i = 1 := by rw [← mul_pow, hoi, one_pow]
+    calc (d.size : F) * cc i * d.offset ^ i * d.sizeInv * d.offsetInv ^ i
+        = cc i * (d.sizeInv * (d.size : F)) * (d.offsetInv ^ i * d.offset ^ i) := by ring
+      _ = cc i := by rw [hsz, this]; ring
+
+end Inv2
+
+section Extra
+variable {F : Type} [CommRing F]
+
+/-! ## 11. statements in the form used by `Ark.Props.C07a` -/
+
+/-- DIT step (dual of `dif_step`): from the transforms of the even- and odd-indexed coefficients to
+    the transform of the sequence -/
+theorem dit_step (c : Nat → F) (m : Nat) (z : F) (hz : z ^ m = -1) :
+    zipButterfly butterflyOI
+        ((List.range m).map (fun t => eval ((List.range m).map (fun u => c (2 * u))) ((z ^ 2) ^ t)))
+        ((List.range m).map (fun t => eval ((List.range m).map (fun u => c (2 * u + 1))) ((z ^ 2) ^ t)))
+        (computePowersSerial m z)
+      = ((List.range m).map (fun t => eval ((List.range (2 * m)).map c) (z ^ t)),
+         (List.range m).map (fun t => eval ((List.range (2 * m)).map c) (z ^ (m + t)))) := by
+  rw [computePowersSerial_eq, zipButterfly_map_range]
+  simp only [butterflyOI]
+  congr 1
+  · apply List.map_congr_left
+    intro t _
+    rw [eval_even_odd, ← pow_mul, ← pow_mul, mul_comm t 2]; ring
+  · apply List.map_congr_left
+    intro t _
+    rw [eval_even_odd, pow_add, hz, ← pow_mul]
+    have : (-1 * z ^ t) ^ 2 = z ^ (2 * t) := by rw [pow_mul]; ring
+    rw [this]; ring
+
+/-- both root branches of `oi_helper` (compacted slice / strided cache) give the first `gap = 2^j`
+    powers of `root^numChunks` -/
+theorem oi_roots_step (k j : Nat) (hj : j < k) (w : F) (rs : List F × Nat)
+    (hrs : rs = if 2 ^ (k - j - 1) ≥ MIN_NUM_CHUNKS_FOR_COMPACTION ∧ 2 ^ j < 2 ^ k / 2 then
+        ((stepBy (2 ^ (k - j - 1)) (computePowersSerial (2 ^ (k - 1)) w)).take (2 ^ j), 1)
+        else (computePowersSerial (2 ^ (k - 1)) w, 2 ^ (k - j - 1))) :
+    stepBy rs.2 rs.1 = computePowersSerial (2 ^ j) (w ^ 2 ^ (k - j - 1)) := by
+  have hst : stepBy (2 ^ (k - j - 1)) (computePowersSerial (2 ^ (k - 1)) w)
+      = computePowersSerial (2 ^ j) (w ^ 2 ^ (k - j - 1)) := by
+    rw [stepBy_pow_table (k - 1) (k - j - 1) (by omega) w]
+    congr 2; omega
+  rw [hrs]
+  split
+  · simp only [stepBy_one]
+    rw [hst, List.take_of_length_le (by simp)]
+  · exact hst
+
+/-- indexed form of `ioHelper_spec`: the value at `ω^i` sits at position `bitrev i` -/
+theorem ioHelper_getElem (d : Domain F) (xi : List F) (w : F) (k : Nat) (hk : k ≤ 64)
+    (hd : d.size = 2 ^ k) (hx : xi.length = 2 ^ k) (hw : k = 0 ∨ w ^ 2 ^ (k - 1) = -1) (i : Nat)
+    (hi : i < 2 ^ k) : (ioHelper d xi w)[bitrev i k]? = some (eval xi (w ^ i)) := by
+  rw [ioHelper_spec d xi w k hd hx hw, brU_eq, List.map_map, bitrev_eq k i hk hi,
+    List.getElem?_map, List.getElem?_range (brev_lt k i)]
+  simp [brev_brev k i hi]
+
+end Extra
+
+section Extra2
+variable {F : Type} [Field F] [DecidableEq F]
+
+theorem element_eq (d : Domain F) (i : Nat) (hi : i < 2 ^ 64) :
+    element d i = d.offset * d.groupGen ^ i := by
+  unfold element
+  rw [pow_eq _ _ hi]
+  by_cases h : d.offset ≠ 1
+  · rw [if_pos h]; ring
+  · rw [if_neg h]
+    have : d.offset = 1 := by simpa using h
+    rw [this, one_mul]
+
+theorem elements_eq_element (d : Domain F) (hs : d.size ≤ 2 ^ 64) :
+    elements d = (List.range d.size).map (element d) := by
+  rw [elements_eq]
+  apply List.map_congr_left
+  intro i hi
+  rw [element_eq d i (by have := List.mem_range.mp hi; omega)]
+
+end Extra2
 end Ark.Fft.A
